@@ -96,8 +96,16 @@ func RunProperty(p *Property, o Options) int {
 	vd := VerifDir()
 	workDir := filepath.Join(vd, ".work")
 	os.MkdirAll(workDir, 0755)
-	os.MkdirAll(filepath.Join(vd, "evidence"), 0755)
-	os.MkdirAll(filepath.Join(vd, "replay"), 0755)
+	evDir := filepath.Join(vd, "evidence")
+	rpDir := filepath.Join(vd, "replay")
+	if d := os.Getenv("VERIF_EVIDENCE_DIR"); d != "" { // selftest: keep mutant runs away from the real evidence
+		evDir = d
+	}
+	if d := os.Getenv("VERIF_REPLAY_DIR"); d != "" {
+		rpDir = d
+	}
+	os.MkdirAll(evDir, 0755)
+	os.MkdirAll(rpDir, 0755)
 	all := map[string]*Stats{}
 	var order []*Stats
 	for _, h := range p.Harnesses {
@@ -135,13 +143,20 @@ func RunProperty(p *Property, o Options) int {
 	nviol, nknown, unstable := 0, 0, 0
 	knownPrinted := map[string]bool{}
 	var violLines []string
+	classes := map[string]int{}
+	classEx := map[string]string{}
 	for _, st := range order {
 		h := hmap[st.Harness]
-		for _, v := range st.Violations {
+		for vi, v := range st.Violations {
 			v.Property = p.ID
-			// confirm: the same vector must fail the same way every time
+			// confirm: the same vector must fail the same way every time (4 more
+			// executions; for subprocess-isolated harnesses the first 12 per harness)
 			stable := true
-			for i := 0; i < 4 && stable; i++ {
+			confirmN := 4
+			if h.Isolated && vi >= 12 {
+				confirmN = 0
+			}
+			for i := 0; i < confirmN && stable; i++ {
 				var again []*Violation
 				if h.Isolated {
 					r := RunOne(o.Self, h, o.Tier, o.Seed, v.Vector, 4<<20, 60*time.Second)
@@ -177,13 +192,20 @@ func RunProperty(p *Property, o Options) int {
 				continue
 			}
 			nviol++
+			cl := st.Harness + " | " + v.What
+			classes[cl]++
+			if classEx[cl] == "" {
+				classEx[cl] = v.Key
+			}
 			sum := sha256.Sum256([]byte(v.Harness + "\x00" + v.Key))
-			path := filepath.Join(vd, "replay", fmt.Sprintf("%s-%s.json", p.ID, hex.EncodeToString(sum[:6])))
+			path := filepath.Join(rpDir, fmt.Sprintf("%s-%s.json", p.ID, hex.EncodeToString(sum[:6])))
 			rf := map[string]interface{}{"property": p.ID, "harness": v.Harness, "tier": o.Tier, "seed": o.Seed, "violation": v}
 			b, _ := json.MarshalIndent(rf, "", " ")
 			os.WriteFile(path, b, 0644)
 			if len(violLines) < 25 {
 				violLines = append(violLines, fmt.Sprintf("VIOLATION property=%s replay=%s", p.ID, path))
+			}
+			if classes[cl] <= 2 {
 				fmt.Printf("  violation: %s | %s\n    input:    %s\n    expected: %s\n    observed: %s\n", v.Key, v.What, clipN(v.Input, 300), clipN(v.Expected, 300), clipN(v.Observed, 300))
 			}
 		}
@@ -253,10 +275,13 @@ func RunProperty(p *Property, o Options) int {
 	}
 	if o.Only == "" {
 		b, _ := json.MarshalIndent(ev, "", " ")
-		if err := os.WriteFile(filepath.Join(vd, "evidence", p.ID+".json"), b, 0644); err != nil {
+		if err := os.WriteFile(filepath.Join(evDir, p.ID+".json"), b, 0644); err != nil {
 			fmt.Fprintln(os.Stderr, "cannot write evidence:", err)
 			return 2
 		}
+	}
+	for cl, n := range classes {
+		fmt.Printf("  violation class: %d distinct failing cases (of those kept) | %s | e.g. %s\n", n, cl, clipN(classEx[cl], 200))
 	}
 	for _, l := range violLines {
 		fmt.Println(l)
